@@ -104,7 +104,25 @@ def load_known():
 
 
 def build_harness():
+    """Build the harness against /repo's working tree. (For experiments only - e.g. trying a seeded change without
+    touching /repo - VERIF_REPO=<dir> builds a private copy of the harness against that tree instead; the registered
+    checks never set it.)"""
+    global HARN, CONFORM
     t = time.time()
+    alt = os.environ.get("VERIF_REPO")
+    if alt:
+        h2 = os.path.join(WORK, "harness-alt")
+        os.makedirs(h2, exist_ok=True)
+        for name in ("src", ".cargo"):
+            shutil.rmtree(os.path.join(h2, name), ignore_errors=True)
+            shutil.copytree(os.path.join(HARN, name), os.path.join(h2, name))
+        shutil.copy(os.path.join(HARN, "Cargo.lock"), h2)
+        toml = open(os.path.join(HARN, "Cargo.toml")).read().replace('path = "/repo"', 'path = "%s"' % alt)
+        open(os.path.join(h2, "Cargo.toml"), "w").write(toml)
+        HARN = h2
+        CONFORM = os.path.join(h2, "target", "release", "conform")
+        import props
+        props.CONFORM = CONFORM
     rc, out = sh(["cargo", "build", "--release", "--offline"], cwd=HARN, timeout=1500,
                  env={"CARGO_NET_OFFLINE": "true", "RUST_BACKTRACE": "0"})
     if rc != 0:
